@@ -127,7 +127,15 @@ class CallMixin:
                     if absent:      # the clause speaks about an argument this call does not pass: it does not hold here
                         self.oblige(st, 'callsite', '%s:%d' % (ast.unparse(f), n), text, z3.BoolVal(False), node.lineno)
                         continue
-                    self.oblige(st, 'callsite', '%s:%d' % (ast.unparse(f), n), text, self.ev_spec(text, st, extra), node.lineno)
+                    try:
+                        goal = self.ev_spec(text, st, extra)
+                    except Unsupported as e:
+                        if 'is not pure' not in str(e):
+                            raise
+                        # the clause cannot be evaluated at this call without a partial operation failing (an index past the
+                        # end of the argument tuple actually passed, a key that is not there): it does not hold here
+                        goal = z3.BoolVal(False)
+                    self.oblige(st, 'callsite', '%s:%d' % (ast.unparse(f), n), text, goal, node.lineno)
         rule = self.find_rule(ast.unparse(f))
         if rule is not None:
             return self.apply_rule(rule, node, st, k)
@@ -824,6 +832,13 @@ class CallMixin:
         if name is None or not isinstance(o, VObj):
             raise Unsupported("getattr(%r, %r) (line %s)" % (o, args[1], node.lineno))
         t = self.objattrs.get((o.sort, name))
+        if (t is None or callable(t)) and o.sort == 'Any' and len(args) == 3:
+            # an attribute nobody declared, read with a default from an opaque object: the default, or an opaque value
+            self.note('rule', (node.lineno, ast.unparse(node)[:60], 'getattr(opaque object, name, default): the default or an opaque value'))
+            out = []
+            for s2, yes in self.branch(st, z3.Bool(fresh_name('has_' + name)), 'getattr-%s@%s' % (name, node.lineno)):
+                out += k(s2, fresh_val(T_ANY, name, s2) if yes else args[2])
+            return out
         if t is None or callable(t):
             raise Unsupported("getattr: attribute %s.%s has no declared type" % (o.sort, name))
         t = parse_type(t)
